@@ -168,6 +168,7 @@ func checkC04(r *Report) {
 		req := map[string][]string{}
 		reqCount := map[string]int{}
 		reqHeld := map[string]int{}
+		lastMissing := map[string]string{}
 		for _, q := range ent.Requires {
 			req[q.Expr] = q.Facts
 			reqCount[q.Expr] = q.Count
@@ -190,12 +191,23 @@ func checkC04(r *Report) {
 				have := factsAt(s.node)
 				var missing []string
 				for _, f := range facts {
+					if f == "ssa:trim-chain" {
+						ok, why := trimChainNonEmpty(p, s.node)
+						if os.Getenv("DEPSCHECK_DEBUG") != "" {
+							fmt.Fprintln(os.Stderr, "trim-chain", p.pos(s.pos), ok, why)
+						}
+						if !ok {
+							missing = append(missing, "non-empty after trimming ("+why+")")
+						}
+						continue
+					}
 					if !have[f] {
 						missing = append(missing, f)
 					}
 				}
 				nGuardChecked++
 				if len(missing) > 0 && reqCount[s.expr] > 0 {
+					lastMissing[s.expr] = fmt.Sprintf("%s: %v", p.pos(s.pos), missing)
 					// only some sites with this text are guard-dependent
 					kinds[ent.Kind+" (reviewed)"]++
 					r.ok("C04.1/BOUNDS", key, p.pos(s.pos), ent.Kind+": "+ent.Why)
@@ -217,7 +229,7 @@ func checkC04(r *Report) {
 		}
 		for e, c := range reqCount {
 			if c > 0 && seenExpr[e] > 0 && reqHeld[e] < c {
-				r.bad("C04.1/BOUNDS", fmt.Sprintf("%s: %s guard", fn, e), p.pos(ss[0].pos), fmt.Sprintf("%d occurrences of this expression were reviewed as dominated by %q; only %d still are", c, req[e], reqHeld[e]))
+				r.bad("C04.1/BOUNDS", fmt.Sprintf("%s: %s guard", fn, e), p.pos(ss[0].pos), fmt.Sprintf("%d occurrences of this expression were reviewed as dominated by %q; only %d still are (missing at %s)", c, req[e], reqHeld[e], lastMissing[e]))
 			}
 		}
 		if len(ss) > ent.Sites && unknown == 0 {
